@@ -366,6 +366,49 @@ impl RedeemNode {
             }
         }
 
+        /// Rebuilds a [`ConstructNode`] in another inference context.
+        struct Retyper<'brand> {
+            inference_context: types::Context<'brand>,
+        }
+
+        impl<'old, 'brand> Converter<Construct<'old>, Construct<'brand>> for Retyper<'brand> {
+            type Error = std::convert::Infallible;
+
+            fn convert_witness(
+                &mut self,
+                _: &PostOrderIterItem<&ConstructNode<'old>>,
+                witness: &Option<Value>,
+            ) -> Result<Option<Value>, Self::Error> {
+                Ok(witness.clone())
+            }
+
+            fn convert_disconnect(
+                &mut self,
+                _: &PostOrderIterItem<&ConstructNode<'old>>,
+                right: Option<&Arc<ConstructNode<'brand>>>,
+                _: &Option<Arc<ConstructNode<'old>>>,
+            ) -> Result<Option<Arc<ConstructNode<'brand>>>, Self::Error> {
+                Ok(right.map(Arc::clone))
+            }
+
+            fn convert_data(
+                &mut self,
+                _: &PostOrderIterItem<&ConstructNode<'old>>,
+                inner: Inner<
+                    &Arc<ConstructNode<'brand>>,
+                    &Option<Arc<ConstructNode<'brand>>>,
+                    &Option<Value>,
+                >,
+            ) -> Result<ConstructData<'brand>, Self::Error> {
+                let converted_inner = inner
+                    .map(|node| node.cached_data())
+                    .map_witness(Option::<Value>::clone);
+                let retyped = ConstructData::from_inner(&self.inference_context, converted_inner)
+                    .expect("pruned types should check out if unpruned types check out");
+                Ok(retyped)
+            }
+        }
+
         struct Finalizer;
 
         impl<'brand> Converter<Construct<'brand>, Redeem> for Finalizer {
@@ -436,12 +479,26 @@ impl RedeemNode {
                 })
                 .expect("pruning unused branches is infallible");
 
-            // 3) Finalize the types of the witness program.
-            // We obtain the pruned redeem program.
-            // Once the pruned type is finalized, we can proceed to prune witness values.
-            Ok(pruned_witness_program
-                .convert::<InternalSharing, _, _>(&mut Finalizer)
-                .expect("finalization is infallible"))
+            // The conversion above has also built the unused branches inside
+            // `inference_context` (children are converted before their parent `case` decides
+            // to hide them). A node that is shared between a hidden branch and the rest of
+            // the program keeps the type constraints of the hidden branch, so the types would
+            // not be those of the pruned program. Rebuild the pruned program, which no longer
+            // reaches the hidden branches, in a fresh context.
+            types::Context::with_context(|fresh_context| {
+                let retyped_witness_program = pruned_witness_program
+                    .convert::<InternalSharing, _, _>(&mut Retyper {
+                        inference_context: fresh_context,
+                    })
+                    .expect("retyping is infallible");
+
+                // 3) Finalize the types of the witness program.
+                // We obtain the pruned redeem program.
+                // Once the pruned type is finalized, we can proceed to prune witness values.
+                Ok(retyped_witness_program
+                    .convert::<InternalSharing, _, _>(&mut Finalizer)
+                    .expect("finalization is infallible"))
+            })
         })
     }
 
